@@ -27,8 +27,10 @@ TRUSTED = [
 ]
 ASSUMPTIONS = [
     "B >= 2 and 0 < alpha < 1 (client parameters)",
-    "margins bounded: every unit's counted/predicted margin is bounded by its counted/predicted two-party turnout "
-    "(holds for counted votes; for predictions it is the clip stage of compute_bootstrap_errors with the default bounds)",
+    "margins bounded: counted votes are non-negative and the configured naive bounds satisfy -1 <= y_lower <= y_upper <= 1, "
+    "0 <= z_lower <= z_upper (the defaults do); given that, every unit's predicted margin is bounded by its predicted two-party turnout "
+    "by theorem (source_clip_draws / source_clip_point / source_group_margin_bounded on the clip stage translated from source)",
+    "the raw draws entering the clip stage are finite (sampling and regressions inside compute_bootstrap_errors are an oracle)",
     "nesting is claimed for uncalled, unstopped groups only (documented limitation with a kernel-checked example)",
 ]
 RULE = (
